@@ -1,0 +1,112 @@
+//go:build verif
+
+// Verification hooks (build tag "verif"), second file for C07. Add-only: observation of
+// discoverUser attempt by attempt (which generation each attempt ran on, which users' decryptors
+// ran and in what order — also when the segment is rejected), an opaque identity for generations,
+// and the registry's lookup counters. Nothing here is compiled into a normal build.
+
+package serveruser
+
+// VerifGeneration returns an opaque, comparable identity of the currently published generation
+// (nil if none has been published).
+func VerifGeneration(r *Registry) any {
+	st := r.users.Load()
+	if st == nil {
+		return nil
+	}
+	return st
+}
+
+// VerifAttempt is one iteration of discoverUser's loop: one tryState run on one generation.
+type VerifAttempt struct {
+	Generation any      // identity of the generation the attempt ran on (see VerifGeneration)
+	Tried      []uint32 // ids (of that generation) of the users whose decryptor ran, in order
+}
+
+// VerifDiscoveryTrace is a discovery observed attempt by attempt.
+type VerifDiscoveryTrace struct {
+	Result     VerifDiscovery // zero when Err != nil
+	Err        error
+	Generation any            // identity of the generation the result is attributed to (nil on rejection)
+	Attempts   []VerifAttempt // every loop iteration, also the discarded ones and the rejecting one
+	Intact     bool           // every decryptor was still traced at the end (false: a key epoch rolled; discard the case)
+}
+
+// VerifDiscoverTraced calls discoverUser. afterAttempt (may be nil) is discoverUser's own seam: it
+// runs after EVERY tryState, with the 0-based number of the attempt, before the requireCurrent
+// re-check; it may call SetUsers. The decryptors of every generation an attempt can load (the one
+// published at the start and every one published by afterAttempt) are traced with
+// cipher.StatelessDecryptor.VerifTrace; tracing does not change any result. Sequential use only.
+func VerifDiscoverTraced(r *Registry, encryptedMetadata []byte, source Source, requireCurrent bool, afterAttempt func(attempt int)) VerifDiscoveryTrace {
+	var out VerifDiscoveryTrace
+	var current []uint32
+	active := true
+	type armedDecryptor struct {
+		u     *user
+		armed func() bool
+	}
+	var all []armedDecryptor
+	seen := map[*state]bool{}
+	ok := true
+	arm := func(st *state) {
+		if st == nil || seen[st] {
+			return
+		}
+		seen[st] = true
+		for i := range st.users {
+			u := &st.users[i]
+			id := u.id
+			armed, err := u.decryptor.VerifTrace(func() {
+				if active {
+					current = append(current, id)
+				}
+			})
+			if err != nil {
+				ok = false
+				continue
+			}
+			all = append(all, armedDecryptor{u, armed})
+		}
+	}
+	arm(r.users.Load())
+	attempt := 0
+	seam := func(st *state) {
+		out.Attempts = append(out.Attempts, VerifAttempt{Generation: st, Tried: current})
+		current = nil
+		if afterAttempt != nil {
+			afterAttempt(attempt)
+		}
+		attempt++
+		arm(r.users.Load())
+	}
+	result, err := discoverUser(&r.users, &r.hintMandatory, encryptedMetadata, source, requireCurrent, seam)
+	active = false
+	for _, a := range all {
+		if !a.armed() {
+			ok = false
+		}
+		a.u.decryptor.VerifUntrace()
+	}
+	out.Intact = ok
+	if err != nil {
+		out.Err = err
+		return out
+	}
+	out.Generation = result.generation
+	out.Result = VerifDiscovery{
+		UserName:          result.userContext.UserName,
+		UserID:            result.userID,
+		Origin:            int(result.origin),
+		Attempts:          result.attempts,
+		GenerationCurrent: r.users.Load() == result.generation,
+		Auth:              result.authentication(source),
+	}
+	return out
+}
+
+// VerifRegistryCounters exposes the Mux-lifetime cache counters of a registry: lookups counts the
+// tryState runs that consulted the source cache (every Discover with a usable source address),
+// fullFallbacks those that went on to scan the registry.
+func VerifRegistryCounters(r *Registry) (lookups, fullFallbacks uint64) {
+	return r.stats.lookups.Load(), r.stats.fullFallbacks.Load()
+}
